@@ -1377,6 +1377,29 @@ func (c *Ctx) rulesC05name() {
 		}
 		visit(f)
 		c.check(bad == "", "C05.name", k+" classifies handlers by phase, not by name suffix", pos, bad)
+		// nor by which kind of binding the call came from (handlerCall.final is only set for
+		// map-based bindings: struct-based final handlers would be treated as negotiation)
+		if k == pm+":Machine.processHandlers" {
+			bad2 := ""
+			pos2 := f.Pos()
+			for _, b := range f.Blocks {
+				if len(b.Instrs) == 0 {
+					continue
+				}
+				ifi, ok := b.Instrs[len(b.Instrs)-1].(*ssa.If)
+				if !ok {
+					continue
+				}
+				valueTree(ifi.Cond, 6, func(x ssa.Value) {
+					if fl := fieldOf(x); fl != nil && (fl.Name() == "final" || fl.Name() == "negotiation") {
+						if nt := namedOf(fieldOwnerOf(x)); nt != nil && nt.Obj().Name() == "handlerCall" {
+							bad2, pos2 = "branches on handlerCall."+fl.Name(), ifi.Pos()
+						}
+					}
+				})
+			}
+			c.check(bad2 == "", "C05.name", k+" does not classify handlers by the binding kind", pos2, bad2)
+		}
 	}
 	if n < 3 {
 		c.undecided(fmt.Sprintf("C05.name: only %d dispatch functions found", n))
